@@ -264,8 +264,9 @@ def run_ocaml(cf: CheckFn, values, timeout=1800):
     """Evaluate cf on every value with the extracted OCaml driver. Returns list of int codes."""
     if not values: return []
     inp = "".join("%s %s\n" % (cf.kind, cf.ty.sexp(v)) for v in values)
-    p = subprocess.run(["timeout", str(timeout), DRIVER], input=inp, stdout=subprocess.PIPE,
-                       stderr=subprocess.PIPE, text=True)
+    # the extracted code is not tail-recursive everywhere: give it a large stack
+    p = subprocess.run(["bash", "-c", "ulimit -s unlimited 2>/dev/null || ulimit -s 4000000 2>/dev/null; exec timeout %d %s" % (timeout, DRIVER)],
+                       input=inp, stdout=subprocess.PIPE, stderr=subprocess.PIPE, text=True)
     if p.returncode != 0:
         raise BuildError("driver failed: rc=%s %s" % (p.returncode, p.stderr[-2000:]))
     lines = p.stdout.split()
